@@ -15,6 +15,24 @@ E1_TECH = ('bounded symbolic execution of the real yatiml/PyYAML code with '
            'bounds), counterexamples replayed on the unstubbed public API')
 
 CHECKS = {
+    'C06': dict(
+        text='Bounded end-to-end symbolic execution of the public dumps '
+             'function on solver-chosen values of 13 class models: purity '
+             '(structural snapshot), determinism, exactly one well-formed '
+             'document, no explicit tag on any node (PyYAML parse events), '
+             'and safe_load(text) equal to the independently computed '
+             'projection with mapping order significant.',
+        design='4/C06'),
+    'C07': dict(
+        text='One inductive step of the JSON event emitter from an arbitrary '
+             'valid state (symbolic state stack, indent counters, options, '
+             'event) against the transition relation of a JSON pushdown '
+             'printer, which covers event histories of any length; plus '
+             'bounded whole documents through dumps_json (24 tree shapes x 30 '
+             'leaves x indent x ensure_ascii: strict RFC 8259, content, '
+             'ASCII/compact defaults) and reload with the matching load '
+             'function.',
+        design='4/C07'),
     'C05': dict(
         engine='E2-z3-regex',
         text='All-strings scalar lemmas decided by z3 over the real resolver '
